@@ -36,15 +36,16 @@ class C15World(World):
             "and followed by >= 1 comparison, on a spec whose fresh constructions under the two seeds differ; distinct = "
             "distinct (model label, op-kind sequence) among those.")
     REAL = ["every nflows class in the zoo (working tree of $VERIF_REPO)", "torch.save / torch.load (weights_only) / load_state_dict(strict=True) / Module._apply"]
-    STUB = ["storage medium (in-memory bytes; thorough tier additionally a scratch directory)", "process boundary (quick: fresh instance "
-            "under another seed in the same interpreter; thorough: additionally a real fresh interpreter with another PYTHONHASHSEED)",
+    STUB = ["storage medium (in-memory bytes of torch.save output)", "process boundary (fresh instance under another seed in the same "
+            "interpreter; for 1 % (quick) / 5 % (thorough) of the runs additionally a REAL fresh interpreter with another PYTHONHASHSEED "
+            "that receives only the spec and the checkpoint bytes)",
             "training loop (synthetic loss, plain SGD update p -= lr*grad)"]
     ASSUME = ["'same configuration' means the same JSON spec; the zoo covers the constructor arguments it enumerates",
               "CPU, one thread (bit-reproducible across processes and alignments: measured, see DESIGN section 2)",
               "checkpoint corruption is out of scope (torch.load would fail before any nflows code runs)"]
     EXPECTED_PROBES = ["restart_before_data_dependent_init", "restart_after_data_dependent_init", "restart_after_parameter_update",
                        "second_generation_restart", "restart_in_float64", "fresh_constructions_differ", "sample_compared",
-                       "inverse_compared", "training_mode_compared"]
+                       "inverse_compared", "training_mode_compared", "real_subprocess_restart_compared"]
 
     # ------------------------------------------------------------ config
     @classmethod
@@ -58,6 +59,9 @@ class C15World(World):
         # (e.g. the normalising constant of the normal distributions) on the old incarnation only, which is
         # numerics, not a save/reload defect, and dtype conversions are not in C15's quantifier.
         cfg["dtype64"] = rng.chance(0.2)
+        # the real process boundary: at the end of the run the newest checkpoint is shipped to a fresh
+        # interpreter (other PYTHONHASHSEED, other seed) and probed there
+        cfg["xproc"] = rng.chance(0.01 if tier == "quick" else 0.05)
         cfg["weights"]["restart"] = max(cfg["weights"]["restart"], 1)
         cfg["weights"]["probe"] = max(cfg["weights"]["probe"], 1)
         return cfg
@@ -283,6 +287,37 @@ class C15World(World):
         if self.dtype64:
             self.probes["restart_in_float64"] += 1
         log.add("restarted")
+
+    def finish(self, log):
+        """Real-subprocess restart: ship the newest incarnation's checkpoint to a fresh interpreter."""
+        if not self.cfg.get("xproc"):
+            return
+        import base64
+        import hashlib
+        from sim import restart_server, prng
+
+        torch = _T()
+        src = self.inc[-1]
+        was = src.training
+        rng = prng.Stream(self.cfg["seed"], "xproc")
+        probes = [{"fn": fn, "x": rng.seed30(), "rows": 3, "rng": 1 + i, "n": 2} for i, fn in enumerate(self.entry.calls())]
+        src.eval()
+        mine = restart_server.run_probes(self.entry, src, probes, self._dtype())
+        src.train(was)
+        self.save_bytes("xproc", src.state_dict())
+        job = {"spec": self.cfg["spec"], "seed": int(rng.seed30()), "dtype64": self.dtype64,
+               "ckpt": base64.b64encode(self.storage["xproc"]).decode(), "probes": probes}
+        ans = restart_server.CLIENT.ask(job)
+        self.faults["crash_restart_real_subprocess"] += 1
+        if "error" in ans:
+            raise Violation("state_dict_does_not_reload", "in a fresh interpreter: " + ans["error"])
+        for op, a, b in zip(probes, mine, ans["results"]):
+            self.comparisons += 1
+            if a != b:
+                raise Violation("reloaded_model_differs", "%s in a fresh interpreter: %s vs %s" % (op["fn"], a[0], b[0]) if a[0] != b[0]
+                                else "%s in a fresh interpreter: different bits" % op["fn"])
+        self.probes["real_subprocess_restart_compared"] += 1
+        log.add("xproc", [r[0] for r in mine])
 
     def _lockstep(self, when):
         if len(self.inc) < 2:
